@@ -163,7 +163,17 @@ def _worker(chunk):
             continue
         aliased = len(item) > 3
         prog, detail, mode = item[:3]
-        for ctx in cases_for(prog):
+        ctxs = cases_for(prog)
+        if len(prog) <= 2 and len(ctxs) > 1 and not aliased:
+            # numbers that are numbers for the processors but not for a JSON encoder, at every key the program reads
+            import fractions
+
+            import numpy as np
+
+            for k in sorted(ctxs[-1]):
+                if isinstance(ctxs[-1][k], float):
+                    ctxs = ctxs + [{**ctxs[-1], k: v} for v in (np.int64(3), fractions.Fraction(1, 2))]
+        for ctx in ctxs:
             bad, info = judge_case(prog, ctx, detail, mode, scratch, aliased)
             out["n"] += 1
             c = info["class"].split("@")[0]
